@@ -549,12 +549,23 @@ def ordered_map_valid_indexed_stream(data_field, map_field, result_field,
                 sm = sm_start
                 while sm < sm_end:
 
+                    prev_sm = sm
                     sm, ri, rv, ri_accum, need_subchunk = \
                         ordered_map_valid_indexed_partial(map_, sm_start, sm_end,
                                                           indices_, sc[0], sc[1], values_,
                                                           i_limits[0],
                                                           result_indices, result_values,
                                                           invalid, sm, ri, rv, ri_accum)
+
+                    if sm == prev_sm and not need_subchunk:
+                        # the value buffer was empty and the next entry still did not fit:
+                        # calling again cannot make progress
+                        i = map_[sm] - i_limits[0]
+                        raise ValueError(
+                            "ordered_map_valid_indexed_stream: an entry of {} bytes does not fit "
+                            "the value buffer of chunksize * value_factor = {} bytes; increase "
+                            "'chunksize' or 'value_factor'".format(
+                                indices_[i+1] - indices_[i], len(result_values)))
 
                     # update the subchunk if necessary
                     if need_subchunk:
